@@ -216,9 +216,10 @@ class Task(NamedUIDObject):
         list_of_z3_assertions = list_of_z3_assertions + self._date_assertions
         if self.optional:  # in this case the previous assertions maybe skipped
             self._scheduled = z3.Bool(f"{self.name}_scheduled")
-            # the first task is moved to -1, the second to -2
-            # etc.
-            point_in_past = -self._task_number
+            # a point in the past that no other task and no unselected worker uses
+            point_in_past = (
+                processscheduler.base.active_problem.get_unique_negative_integer()
+            )
             if isinstance(self, VariableDurationTask):
                 not_scheduled_assertion = z3.And(
                     self._start == point_in_past,  # to past
